@@ -71,7 +71,17 @@ def run_once(ld, lens, p, drop, via):
               reverse_sort=(p['sort'] == 'desc'),
               batch_size=p['bs'], len_key=lambda x: x[1],
               max_padding_rate=p['rate'], max_total_size=p['mts'])
-    if via == 'method':
+    if via == 'strkeys':
+        # dict examples, len_key / sort_key given as dictionary keys
+        dex = [{'i': i, 'len': l} for i, l in examples]
+
+        def pull_d(x):
+            log.append(('pull', x['i']))
+            return x
+        kw2 = dict(kw, len_key='len', sort_key=(None if p['sort'] is None else 'len'))
+        dsd = ld.new(dex).map(pull_d).batch_dynamic_bucket(bucket_cls=B, **kw2)
+        ds = dsd.map(lambda b: [(x['i'], x['len']) for x in b])
+    elif via == 'method':
         ds = ld.new(examples).map(pull).batch_dynamic_bucket(bucket_cls=B, **kw)
     else:
         class Src:
@@ -92,7 +102,7 @@ def run_once(ld, lens, p, drop, via):
         ids = sorted(x[0] for x in b)
         flag = None
         for bk in buckets:
-            if sorted(x[0] for x in bk.data) == ids:
+            if sorted((x['i'] if isinstance(x, dict) else x[0]) for x in bk.data) == ids:
                 flag = bool(bk.is_completed())
         batches.append((list(b), flag))
     return log, batches
@@ -250,7 +260,8 @@ def run_shard(spec, res):
                     cnt += 1
                     if cnt % spec['mod'] != spec['rem']:
                         continue
-                    check(ld, lens, p, 'class' if cnt % 5 else 'method', res)
+                    check(ld, lens, p, 'class' if cnt % 5 else
+                          ('method' if cnt % 10 else 'strkeys'), res)
         res.sample({'lens': [1, 5, 2, 8], 'params': pts[len(pts) // 3]})
     elif spec['what'] == 'sampled':
         for L in range(spec['L0'] + 1, spec['L1'] + 1):
